@@ -63,6 +63,7 @@ def c11_dir(job, drv):
         fails = {"empty": [], "wrong": []}
         not_restored = []
         followup_bad = []
+        followups = []
         examples = []
         tested = 0
         t0 = time.time()
@@ -96,29 +97,34 @@ def c11_dir(job, drv):
             return cls
 
         view0 = _entry_view(pickle.loads(B))
+        S, rem = job.get("mod", [1, 0])      # this job handles the lengths n with n % S == rem
         for n in range(lo, hi + 1):
-            if n == size:
+            if n == size or n % S != rem:
                 continue            # the complete file is not a fault
             key = seq[n % len(seq)]
             cls = attempt("prefix", n, B[:n], key)
             if n % every == 0:
                 key2 = seq[(n + 7) % len(seq)]
                 rq = protokeys[key2]
-                r2 = drv.serve_once(w.config, drv.s2b(rq["data"]), tls=rq["tls"])
-                if h.mask(drv.s2b(r2["out"])) != refs[key2]:
+                o2 = h.observed_request(drv, w.config, cachepath, drv.s2b(rq["data"]), rq["tls"])
+                cls2 = "empty" if (o2["exc"] or not o2["len"]) else ("ok" if o2["hash"] == h.digest(refs[key2]) else "wrong")
+                followups.append([n, cls, cls2, bool(o2["opened_w"])])
+                if cls2 != "ok":
                     followup_bad.append(n)
-        prefix_fail = {k: _ranges(v) for k, v in fails.items()}
+        prefix_fail = {k: list(v) for k, v in fails.items()}
+        not_restored_prefix = list(not_restored)
+        first = rem == 0
         prefix_counts = {k: len(v) for k, v in fails.items()}
         # zero-filled file of the full length, and a few other full-length garbage files
         others = {}
         fails = {"empty": [], "wrong": []}
-        for label, data in (("zero-filled", bytes(size)), ("ff-filled", b"\xff" * size)):
+        for label, data in ((("zero-filled", bytes(size)), ("ff-filled", b"\xff" * size)) if first else ()):
             others[label] = attempt(label, size, data, seq[len(label) % len(seq)])
         # ---- codec facts on the real pickle ----
         undecodable = 0
         decodable_prefixes = []
         exc_types = {}
-        for n in range(0, size):
+        for n in (range(0, size) if first else ()):
             try:
                 pickle.loads(B[:n])
                 decodable_prefixes.append(n)
@@ -135,7 +141,16 @@ def c11_dir(job, drv):
         holes = {"tried": 0, "accepted": 0, "accepted_and_different": 0, "examples": []}
         lens = job.get("hole_lengths", [1, 2, 4, 16, 64, 512])
         step = int(job.get("hole_step", 1))
-        for a in range(0, size, step):
+        # some holed files make the unpickler ask for tens of gigabytes (a zeroed length byte turns
+        # payload into opcodes such as LONG_BINPUT): cap the address space while searching
+        import resource
+        soft, hard = resource.getrlimit(resource.RLIMIT_AS)
+        with open("/proc/self/statm") as f:
+            vm_now = int(f.read().split()[0]) * os.sysconf("SC_PAGE_SIZE")
+        resource.setrlimit(resource.RLIMIT_AS, (vm_now + (1 << 30), hard))
+        holes["memory_errors"] = 0
+        try:
+          for a in (range(0, size, step) if first else ()):
             for ln in lens:
                 if a + ln > size:
                     continue
@@ -145,6 +160,9 @@ def c11_dir(job, drv):
                 holes["tried"] += 1
                 try:
                     v = _entry_view(pickle.loads(g))
+                except MemoryError:
+                    holes["memory_errors"] += 1
+                    continue
                 except Exception:
                     continue
                 holes["accepted"] += 1
@@ -153,9 +171,11 @@ def c11_dir(job, drv):
                     if len(holes["examples"]) < 3:
                         diff = [(x, y) for e0, e1 in zip(view0, v) for x, y in zip(e0, e1) if x != y][:2]
                         holes["examples"].append({"offset": a, "length": ln, "difference": repr(diff)[:300]})
+        finally:
+            resource.setrlimit(resource.RLIMIT_AS, (soft, hard))
         return {"size": size, "tested": tested, "range": [lo, hi], "prefix_fail_ranges": prefix_fail,
-                "prefix_fail_counts": prefix_counts, "others": others, "not_restored": _ranges(not_restored),
-                "followup_bad": followup_bad, "examples": examples, "secs": round(time.time() - t0, 2),
+                "prefix_fail_counts": prefix_counts, "others": others, "not_restored": not_restored, "first_shard": first, "mod": [S, rem],
+                "followup_bad": followup_bad, "followups": followups, "examples": examples, "secs": round(time.time() - t0, 2),
                 "cache_latin1": drv.b2s(B) if job.get("return_cache") else None,
                 "pickle": {"strict_prefixes": size, "undecodable": undecodable, "decodable_prefixes": decodable_prefixes[:10],
                            "exception_types": exc_types, "roundtrip_identity": roundtrip, "zero_filled_fails": zero_fails},
@@ -200,7 +220,8 @@ def c11_zip(job, drv):
             vfails = 0
             for f in files:
                 B = originals[f]
-                for n in list(range(0, len(B))) + [-1]:
+                stride = int(job.get("activated_stride", 1)) if bare else 1
+                for n in list(range(0, len(B), stride)) + [-1]:
                     for g, data in originals.items():
                         _put(os.path.join(w.root, g), data)
                     barepath = os.path.join(w.root, ".cache.pygopherd.zip3." + job["zipname"])
